@@ -24,6 +24,7 @@ function from the argument tuple to the result tuple.
 import GoderiveModel.U.Ty
 import GoderiveModel.U.Val
 import GoderiveModel.S.Equal
+import GoderiveModel.S.Hash
 
 namespace Goderive.Mem
 open Goderive Val
@@ -125,6 +126,19 @@ structure Cfg where
   hash : Val → UInt64 := fun _ => 0
   /-- derived Equal of the key type (`bucket` shape): `eq stored new` -/
   eq : Val → Val → Bool := fun _ _ => false
+
+/-- the configuration of the code emitted for parameter types `ps` and `nres` results: the shape
+chosen by `genFunc`, and derived Hash / Equal of the key type (`g.hash.GetFuncName(…)`,
+`g.equal.GetFuncName(…, …)`). A panic of either aborts the call in Go; the driver checks for it
+before playing a sequence (they do not panic on well-typed values of supported types: C02, C04). -/
+def cfgOf (env : Env) (ps : List Ty) (nres : Nat) : Cfg :=
+  { shape := shapeOf env ps, nres := nres,
+    hash := fun k => match Hash.top env (keyTy ps) k with
+      | .ok h => h
+      | .panic => 0,
+    eq := fun a b => match Equal.top env (keyTy ps) a b with
+      | .ok r => r
+      | .panic => false }
 
 /-- the state right after `m := deriveMem(f)` -/
 def init (c : Cfg) : State :=
